@@ -536,6 +536,11 @@ func Pow(y tensor.Tensor, x tensor.Tensor, a float64) (gctx *GradContext) {
 			{
 				target: x,
 				gradFn: func() (tensor.Tensor, error) {
+					if a == 0 {
+						// constant result; a*x^(a-1) would be 0*Inf at x = 0
+						return toZeros(x), nil
+					}
+
 					gy := y.Gradient()
 					gx := x.Pow(a - 1)
 					gx = gx.Scale(a)
